@@ -300,6 +300,14 @@ def run_shard(ctx):
             class M(fsic.BaseModel):
                 pass
             check_spec(ctx, spec, cls=lambda span: _as_container(M, span))
+        if spec.kind in ('list[mixed hashables]', 'list[float]', 'range(-10**12,..)'):
+            # the alias mixin only ever translates *names*: labels of any kind (None, tuples, floats, ...) pass through untouched
+            from fsic.extensions import AliasMixin
+            AC = type('AC', (AliasMixin, fsic.core.VectorContainer), {'ALIASES': {'XA': 'X', 'KA': 'K'}})
+            AM = type('AM', (AliasMixin, fsic.BaseModel), {'ALIASES': {'XA': 'X', 'KA': 'K'}})
+            ctx.count('alias_mixin_label_specs')
+            check_spec(ctx, spec, cls=AC)
+            check_spec(ctx, spec, cls=AM)
         if all(isinstance(l[0], str) for l in spec.labels):
             # classes with the alias mixin: aliases apply to *names* only - a period label that happens to
             # equal an alias (or an alias target) is still just a label
